@@ -22,7 +22,7 @@ type prun struct {
 	trace  []string
 	kcases []string
 	nDump  int
-	recovered []int64          // tables created by the last Open (left aside by the residue checks)
+	recovered fileSet          // tables created by the last Open (left aside by the residue checks)
 	snaps  []*leveldb.Snapshot // own handles mirroring the runner's live snapshots (same sequence numbers)
 	// per open transaction
 	txnReadsIn, txnReadsOut, txnMaxTables int
@@ -224,10 +224,10 @@ func fl(f *dbh.Failure) string {
 func (x *prun) closeWithOpenTxn(i int) string {
 	r := x.r
 	tr := r.Txn
-	var nums []int64
+	var nums fileSet
 	if tr != nil {
 		x.noteTxnTables()
-		nums = leveldb.VerifTxnTableNums(tr)
+		nums = filesOf(r.Stor, leveldb.VerifTxnTableNums(tr))
 		x.endTxnStats()
 		x.stats["close_with_open_txn"]++
 		if len(nums) > 0 {
@@ -259,11 +259,11 @@ func (x *prun) closeWithOpenTxn(i int) string {
 		}
 		tr.Discard()
 	}
-	pre := tableNums(r.Stor)
+	pre := r.Stor.OpCount()
 	if err := r.Open(); err != nil {
 		return fmt.Sprintf("reopen after Close with open transaction: %v", err)
 	}
-	x.recovered = newSince(r.Stor, pre)
+	x.recovered = createdSince(r.Stor, pre)
 	if f := r.CheckAll(true); f != nil {
 		return "after Close with an open transaction and reopen: " + f.What
 	}
@@ -291,11 +291,11 @@ func (x *prun) step(i int, op *dbh.Op) string {
 		if err, fail := call("DB.Close", func() error { return r.Close() }); fail != "" || err != nil {
 			return fmt.Sprintf("Close: %s%v", fail, err)
 		}
-		pre := tableNums(r.Stor)
+		pre := r.Stor.OpCount()
 		if err := r.Open(); err != nil {
 			return fmt.Sprintf("reopen error %v", err)
 		}
-		x.recovered = newSince(r.Stor, pre)
+		x.recovered = createdSince(r.Stor, pre)
 		if s := fl(r.CheckAll(true)); s != "" {
 			return s
 		}
@@ -468,7 +468,7 @@ func (x *prun) step(i int, op *dbh.Op) string {
 		}
 		x.noteTxnTables()
 		tr := r.Txn
-		nums := leveldb.VerifTxnTableNums(tr)
+		nums := filesOf(r.Stor, leveldb.VerifTxnTableNums(tr))
 		seq0 := leveldb.VerifSeq(r.DB)
 		if s := fl(r.Step(i, op)); s != "" {
 			return s
@@ -491,6 +491,11 @@ func (x *prun) step(i int, op *dbh.Op) string {
 		if extra := residue(r.DB, r.Stor, x.recovered); len(extra) > 0 {
 			return fmt.Sprintf("after Discard table files %v are not in the live version", extra)
 		}
+	case dbh.OpWaitIdle:
+		x.stats["op_idle"]++
+		if r.Txn == nil {
+			leveldb.VerifWaitIdleDB(r.DB, 20*time.Second)
+		}
 	default:
 		return fl(r.Step(i, op))
 	}
@@ -499,7 +504,7 @@ func (x *prun) step(i int, op *dbh.Op) string {
 
 // runProgram executes the program under a watchdog; the DB is closed at the end.
 func runProgram(p *dbh.Program, kr *vlib.RNG) (out progOut) {
-	r, _ := dbh.NewRunner(p, false)
+	r, _ := dbh.NewRunner(p, true) // the op log tells which files an Open created
 	x := &prun{r: r, p: p, kr: kr, stats: map[string]int{}}
 	done := make(chan struct{})
 	go func() {
